@@ -32,7 +32,9 @@ def leak_site(err):
 def enc_cases(tier):
     cfgs = [("hl0", {"hierarchical_levels": 0}), ("hl3", {"hierarchical_levels": 3}), ("hl3-overlays", {"hierarchical_levels": 3, "enable_overlays": 1}),
             ("hl3-norecon", {"hierarchical_levels": 3, "recon_enabled": 0}), ("hl3-10bit", {"hierarchical_levels": 3, "encoder_bit_depth": 10}),
-            ("hl2-lp4", {"hierarchical_levels": 2, "logical_processors": 4, "w": 128, "h": 128})]
+            ("hl2-lp4", {"hierarchical_levels": 2, "logical_processors": 4, "w": 128, "h": 128}),
+            # the process / buffer counts of load_default_buffer_configuration_settings have three classes: 1 core, 2-3 cores, >= 4 cores
+            ("hl2-lp2", {"hierarchical_levels": 2, "logical_processors": 2}), ("hl2-lp3", {"hierarchical_levels": 2, "logical_processors": 3})]
     if tier == "quick":
         cfgs = cfgs[:3] + cfgs[5:]
     out = []
@@ -46,6 +48,8 @@ def enc_cases(tier):
         for k in range(0, n + 1):
             for pat in ("n", "d"):
                 if tier == "quick" and k > 4 and k % 2 and pat == "d":
+                    continue
+                if tier == "quick" and cname in ("hl2-lp2", "hl2-lp3") and k not in (0, 2):
                     continue
                 out.append(("%s/teardown-after-%d-pictures,%s" % (cname, k, "drained" if pat == "d" else "nothing-retrieved"),
                             dict(base, n=n, teardown_at=k, pat=pat)))
@@ -90,6 +94,8 @@ def case(item):
         return o
     if r.get("deinit") not in (0, None) or r.get("deinit_handle") not in (0, None):
         o["viol"].append(("C15:teardown-error@%s/%s" % (cls, point), "deinit=%s deinit_handle=%s" % (r.get("deinit"), r.get("deinit_handle"))))
+    if r.get("unjoined") not in (0, -1, None):
+        o["viol"].append(("C15:threads-not-joined@%s/%s" % (cls, point), "%s library threads were created and never joined by deinit / deinit_handle" % r.get("unjoined")))
     if r.get("tasks") not in (1, None):
         o["viol"].append(("C15:threads-left@%s/%s" % (cls, point), "%s threads alive after deinit_handle" % r.get("tasks")))
     o["pkt_hash"] = "%s|%s" % (label, r.get("npk"))
